@@ -76,7 +76,9 @@ impl Txtpp {
 
         let progress = Progress::new(config.verbosity.clone());
 
-        let threadpool = Builder::new().num_threads(config.num_threads).build();
+        let threadpool = Builder::new()
+            .num_threads(config.num_threads.max(1))
+            .build();
         let (send, recv) = mpsc::channel();
 
         let mut runtime = Self {
